@@ -55,11 +55,13 @@ structure Env where
 inductive SOut | normal | ret | brk | cont | exc (e : Nat) | timeout
   deriving DecidableEq, Repr, Inhabited
 
-/-- result of rendering nodes: outcome, output, evaluation counter -/
+/-- result of rendering nodes: outcome, output, evaluation counter, and the variables of the activation as the
+    nodes left them (a `% for` target stays bound after its loop, as in Python) -/
 structure SR where
   o : SOut
   out : Str
   cnt : Nat
+  vars : List (Name × Str)
   deriving Repr, Inhabited
 
 inductive SV | val (v : Str) | exc (e : Nat) | timeout
@@ -259,11 +261,11 @@ def sinvoke (c : Cfg) : Nat → SFun → SNS → List Str → Env → SNS → Na
             nf := env.nf + (if fn.kind == .body then 0 else 1),
             mod := fn.mod }
         match snodes c n fn.body inner c0 with
-        | ⟨.timeout, o, c1⟩ => ⟨.timeout, o, c1⟩
-        | ⟨.exc e, o, c1⟩ => ⟨.exc e, if buffering then [] else o, c1⟩
-        | ⟨.brk, o, c1⟩ => ⟨.exc excSyntax, if buffering then [] else o, c1⟩
-        | ⟨.cont, o, c1⟩ => ⟨.exc excSyntax, if buffering then [] else o, c1⟩
-        | ⟨_, o, c1⟩ =>
+        | ⟨.timeout, o, c1, _⟩ => ⟨.timeout, o, c1⟩
+        | ⟨.exc e, o, c1, _⟩ => ⟨.exc e, if buffering then [] else o, c1⟩
+        | ⟨.brk, o, c1, _⟩ => ⟨.exc excSyntax, if buffering then [] else o, c1⟩
+        | ⟨.cont, o, c1, _⟩ => ⟨.exc excSyntax, if buffering then [] else o, c1⟩
+        | ⟨_, o, c1, _⟩ =>
           -- the content is complete: `filter=` applies to all of it, once; a failing filter loses it
           match filterContent c.k fn.fl.filters o c1 with
           | (.exc e, c2) => ⟨.exc e, [], c2⟩
@@ -279,97 +281,97 @@ def sinvoke (c : Cfg) : Nat → SFun → SNS → List Str → Env → SNS → Na
 
 /-- the nodes of a scope -/
 def snodes (c : Cfg) : Nat → Tmpl → Env → Nat → SR
-  | 0, _, _, cnt => ⟨.timeout, [], cnt⟩
+  | 0, _, env, cnt => ⟨.timeout, [], cnt, env.vars⟩
   | n + 1, t, env, cnt =>
     match t with
-    | .nil => ⟨.normal, [], cnt⟩
+    | .nil => ⟨.normal, [], cnt, env.vars⟩
     | .seq a b =>
       match snodes c n a env cnt with
-      | ⟨.normal, o1, c1⟩ =>
-        match snodes c n b env c1 with
-        | ⟨r, o2, c2⟩ => ⟨r, o1 ++ o2, c2⟩
+      | ⟨.normal, o1, c1, v1⟩ =>
+        match snodes c n b { env with vars := v1 } c1 with
+        | ⟨r, o2, c2, v2⟩ => ⟨r, o1 ++ o2, c2, v2⟩
       | r => r
-    | .text s => ⟨.normal, s, cnt⟩
+    | .text s => ⟨.normal, s, cnt, env.vars⟩
     | .expr e fs =>
       match seval c n (applyFilters fs e) env [] cnt with
-      | ⟨.val v, o, c1⟩ => ⟨.normal, o ++ v, c1⟩
-      | ⟨.exc e, o, c1⟩ => ⟨.exc e, o, c1⟩
-      | ⟨.timeout, o, c1⟩ => ⟨.timeout, o, c1⟩
+      | ⟨.val v, o, c1⟩ => ⟨.normal, o ++ v, c1, env.vars⟩
+      | ⟨.exc e, o, c1⟩ => ⟨.exc e, o, c1, env.vars⟩
+      | ⟨.timeout, o, c1⟩ => ⟨.timeout, o, c1, env.vars⟩
     | .ite cnd t e =>
       match seval c n cnd env [] cnt with
       | ⟨.val v, o, c1⟩ =>
         match snodes c n (if v.isEmpty then e else t) env c1 with
-        | ⟨r, o2, c2⟩ => ⟨r, o ++ o2, c2⟩
-      | ⟨.exc e, o, c1⟩ => ⟨.exc e, o, c1⟩
-      | ⟨.timeout, o, c1⟩ => ⟨.timeout, o, c1⟩
+        | ⟨r, o2, c2, v2⟩ => ⟨r, o ++ o2, c2, v2⟩
+      | ⟨.exc e, o, c1⟩ => ⟨.exc e, o, c1, env.vars⟩
+      | ⟨.timeout, o, c1⟩ => ⟨.timeout, o, c1, env.vars⟩
     | .for_ x items body =>
       match sargs c n items env [] cnt with
       | ⟨.vals vs, o, c1⟩ =>
         let ctx := argsMentionLoop items || mentionsLoopDeep body
         match siter c n x vs body ctx 0 env c1 with
-        | ⟨r, o2, c2⟩ => ⟨r, o ++ o2, c2⟩
-      | ⟨.exc e, o, c1⟩ => ⟨.exc e, o, c1⟩
-      | ⟨.timeout, o, c1⟩ => ⟨.timeout, o, c1⟩
+        | ⟨r, o2, c2, v2⟩ => ⟨r, o ++ o2, c2, v2⟩
+      | ⟨.exc e, o, c1⟩ => ⟨.exc e, o, c1, env.vars⟩
+      | ⟨.timeout, o, c1⟩ => ⟨.timeout, o, c1, env.vars⟩
     | .while_ m body =>
       match tickS c.k cnt with
-      | (true, c1) => ⟨.exc excBoom, [], c1⟩
+      | (true, c1) => ⟨.exc excBoom, [], c1, env.vars⟩
       | (false, c1) =>
         if cnt < m then
           match snodes c n body env c1 with
-          | ⟨.normal, o, c2⟩ => match snodes c n (.while_ m body) env c2 with
-            | ⟨r, o2, c3⟩ => ⟨r, o ++ o2, c3⟩
-          | ⟨.cont, o, c2⟩ => match snodes c n (.while_ m body) env c2 with
-            | ⟨r, o2, c3⟩ => ⟨r, o ++ o2, c3⟩
-          | ⟨.brk, o, c2⟩ => ⟨.normal, o, c2⟩
+          | ⟨.normal, o, c2, v2⟩ => match snodes c n (.while_ m body) { env with vars := v2 } c2 with
+            | ⟨r, o2, c3, v3⟩ => ⟨r, o ++ o2, c3, v3⟩
+          | ⟨.cont, o, c2, v2⟩ => match snodes c n (.while_ m body) { env with vars := v2 } c2 with
+            | ⟨r, o2, c3, v3⟩ => ⟨r, o ++ o2, c3, v3⟩
+          | ⟨.brk, o, c2, v2⟩ => ⟨.normal, o, c2, v2⟩
           | r => r
-        else ⟨.normal, [], c1⟩
+        else ⟨.normal, [], c1, env.vars⟩
     | .try_ b h =>
       match snodes c n b env cnt with
-      | ⟨.exc _, o, c1⟩ =>
-        match snodes c n h env c1 with
-        | ⟨r, o2, c2⟩ => ⟨r, o ++ o2, c2⟩
+      | ⟨.exc _, o, c1, v1⟩ =>
+        match snodes c n h { env with vars := v1 } c1 with
+        | ⟨r, o2, c2, v2⟩ => ⟨r, o ++ o2, c2, v2⟩
       | r => r
-    | .def_ _ _ _ _ => ⟨.normal, [], cnt⟩
+    | .def_ _ _ _ _ => ⟨.normal, [], cnt, env.vars⟩
     | .block name _ _ _ =>
       match resolveS c env name with
-      | none => ⟨.exc excName, [], cnt⟩
+      | none => ⟨.exc excName, [], cnt, env.vars⟩
       | some fn =>
         match sinvoke c n fn [] [] env [] cnt with
-        | ⟨.val _, o, c1⟩ => ⟨.normal, o, c1⟩
-        | ⟨.exc e, o, c1⟩ => ⟨.exc e, o, c1⟩
-        | ⟨.timeout, o, c1⟩ => ⟨.timeout, o, c1⟩
+        | ⟨.val _, o, c1⟩ => ⟨.normal, o, c1, env.vars⟩
+        | ⟨.exc e, o, c1⟩ => ⟨.exc e, o, c1, env.vars⟩
+        | ⟨.timeout, o, c1⟩ => ⟨.timeout, o, c1, env.vars⟩
     | .call e bodyArgs body =>
       let layer : SLayer := (0, ⟨bodyArgs, noFlags, body, .body, env.mod⟩) :: callDefsOf env.mod body
       match seval c n e env (layer :: env.caller) cnt with
-      | ⟨.val v, o, c1⟩ => ⟨.normal, o ++ v, c1⟩
-      | ⟨.exc e, o, c1⟩ => ⟨.exc e, o, c1⟩
-      | ⟨.timeout, o, c1⟩ => ⟨.timeout, o, c1⟩
+      | ⟨.val v, o, c1⟩ => ⟨.normal, o ++ v, c1, env.vars⟩
+      | ⟨.exc e, o, c1⟩ => ⟨.exc e, o, c1, env.vars⟩
+      | ⟨.timeout, o, c1⟩ => ⟨.timeout, o, c1, env.vars⟩
     | .textTag fs s =>
       match filterContent c.k fs s cnt with
-      | (.val v, c1) => ⟨.normal, v, c1⟩
-      | (.exc e, c1) => ⟨.exc e, [], c1⟩
-      | (.timeout, c1) => ⟨.timeout, [], c1⟩
+      | (.val v, c1) => ⟨.normal, v, c1, env.vars⟩
+      | (.exc e, c1) => ⟨.exc e, [], c1, env.vars⟩
+      | (.timeout, c1) => ⟨.timeout, [], c1, env.vars⟩
     | .include_ i =>
       match sinclude c n i env cnt with
-      | ⟨.val _, o, c1⟩ => ⟨.normal, o, c1⟩
-      | ⟨.exc e, o, c1⟩ => ⟨.exc e, o, c1⟩
-      | ⟨.timeout, o, c1⟩ => ⟨.timeout, o, c1⟩
-    | .ret => ⟨.ret, [], cnt⟩
-    | .brk => ⟨.brk, [], cnt⟩
-    | .cont => ⟨.cont, [], cnt⟩
+      | ⟨.val _, o, c1⟩ => ⟨.normal, o, c1, env.vars⟩
+      | ⟨.exc e, o, c1⟩ => ⟨.exc e, o, c1, env.vars⟩
+      | ⟨.timeout, o, c1⟩ => ⟨.timeout, o, c1, env.vars⟩
+    | .ret => ⟨.ret, [], cnt, env.vars⟩
+    | .brk => ⟨.brk, [], cnt, env.vars⟩
+    | .cont => ⟨.cont, [], cnt, env.vars⟩
 
 /-- iterations of a `% for`; with a loop context the index of iteration `i` is `i` -/
 def siter (c : Cfg) : Nat → Name → List Str → Tmpl → Bool → Nat → Env → Nat → SR
-  | 0, _, _, _, _, _, _, cnt => ⟨.timeout, [], cnt⟩
-  | _ + 1, _, [], _, _, _, _, cnt => ⟨.normal, [], cnt⟩
+  | 0, _, _, _, _, _, env, cnt => ⟨.timeout, [], cnt, env.vars⟩
+  | _ + 1, _, [], _, _, _, env, cnt => ⟨.normal, [], cnt, env.vars⟩
   | n + 1, x, v :: vs, body, ctx, i, env, cnt =>
     let env' : Env := { env with vars := (x, v) :: env.vars, loops := if ctx then i :: env.loops else env.loops }
     match snodes c n body env' cnt with
-    | ⟨.normal, o, c1⟩ => match siter c n x vs body ctx (i + 1) { env with vars := (x, v) :: env.vars } c1 with
-      | ⟨r, o2, c2⟩ => ⟨r, o ++ o2, c2⟩
-    | ⟨.cont, o, c1⟩ => match siter c n x vs body ctx (i + 1) { env with vars := (x, v) :: env.vars } c1 with
-      | ⟨r, o2, c2⟩ => ⟨r, o ++ o2, c2⟩
-    | ⟨.brk, o, c1⟩ => ⟨.normal, o, c1⟩
+    | ⟨.normal, o, c1, v1⟩ => match siter c n x vs body ctx (i + 1) { env with vars := v1 } c1 with
+      | ⟨r, o2, c2, v2⟩ => ⟨r, o ++ o2, c2, v2⟩
+    | ⟨.cont, o, c1, v1⟩ => match siter c n x vs body ctx (i + 1) { env with vars := v1 } c1 with
+      | ⟨r, o2, c2, v2⟩ => ⟨r, o ++ o2, c2, v2⟩
+    | ⟨.brk, o, c1, v1⟩ => ⟨.normal, o, c1, v1⟩
     | r => r
 
 end
